@@ -79,6 +79,14 @@ def run_case(acc, c: dict, monitors: List[Callable], nontrivial: Optional[Callab
     selection, tie_budget = c.get("sel"), c.get("ties")
     warm, debug_on, batch_order = c.get("warm", 0), c.get("debug_on", False), c.get("batch", False)
     early = c.get("early", 0)
+    # max_concurrency lowered / raised after the build (config_from_dict or plain assignment): the DAG is built with
+    # build_mc, the monitors judge against the reconfigured value
+    reconf = c.get("reconf")
+    bprog = prog
+    if reconf:
+        from dataclasses import replace as _replace
+        bprog = _replace(prog, mc=reconf["build_mc"])
+        prog = _replace(prog, mc=reconf["mc"])
     src = prog.source()
     lines = src_lines_of(prog, src)
     sel = selection_set(prog, selection)
@@ -89,7 +97,12 @@ def run_case(acc, c: dict, monitors: List[Callable], nontrivial: Optional[Callab
     cfg.RUN_DEBUG_NODES = debug_on
 
     def fresh():
-        state["d"], state["ns"] = build_gprog(prog, noloc=c.get("noloc", False))
+        state["d"], state["ns"] = build_gprog(bprog, noloc=c.get("noloc", False))
+        if reconf:
+            if reconf.get("via") == "attr":
+                state["d"].max_concurrency = reconf["mc"]
+            else:
+                state["d"].config_from_dict({"max_concurrency": reconf["mc"]})
         state["pre"] = None
         if warm:
             pre = {}
@@ -164,7 +177,17 @@ def replay_case(c: dict, monitors: List[Callable], prefix, prog: Optional[GProg]
     warm, debug_on, batch_order = c.get("warm", 0), c.get("debug_on", False), c.get("batch", False)
     cfg.RUN_DEBUG_NODES = debug_on
     try:
-        d, ns = build_gprog(prog, noloc=c.get("noloc", False))
+        reconf = c.get("reconf")
+        if reconf:
+            from dataclasses import replace as _replace
+            d, ns = build_gprog(_replace(prog, mc=reconf["build_mc"]), noloc=c.get("noloc", False))
+            if reconf.get("via") == "attr":
+                d.max_concurrency = reconf["mc"]
+            else:
+                d.config_from_dict({"max_concurrency": reconf["mc"]})
+            prog = _replace(prog, mc=reconf["mc"])
+        else:
+            d, ns = build_gprog(prog, noloc=c.get("noloc", False))
         src = prog.source()
         sel = selection_set(prog, selection)
         idx = {s_: i for i, s_ in enumerate(prog.ids())}
